@@ -1,11 +1,22 @@
 #!/bin/bash
-# try_seed.sh <seed-id> <PID> [extra verify args]  -- applies /verif/seeded/<id>/patch.diff to /repo, runs the property's check
-# (evidence/replays redirected to /tmp/seed_out_<id>), and undoes the patch straight afterwards.
+# try_seed.sh <seed-id> <PID> [extra verify args]
+# Runs the property's check against the seeded breakage /verif/seeded/<id>/patch.diff.
+# Default: on a scratch copy of /repo (VERIF_REPO), so that background runs using /repo are not disturbed.
+# With SEED_IN_REPO=1: git -C /repo apply; run; git -C /repo checkout -- .   (the way the checks are meant to be used)
 set -u
 ID=$1; PID=$2; shift 2
-cd /repo || exit 2
-git diff --quiet || { echo "/repo is dirty"; exit 2; }
-git apply /verif/seeded/$ID/patch.diff || { echo "patch does not apply"; exit 2; }
-trap 'git -C /repo checkout -- . ; find /repo -name __pycache__ -prune -exec rm -rf {} + 2>/dev/null' EXIT
-VERIF_OUT=/tmp/seed_out_$ID VERIF_MAX_REPORT=2 timeout 3000 /venv/bin/python /verif/bin/verify $PID "$@" 2>&1 | grep -v simpleTAL | cut -c1-700 | tail -12
+OUT=/tmp/seed_out_$ID
+if [ "${SEED_IN_REPO:-0}" = "1" ]; then
+  cd /repo || exit 2
+  git diff --quiet || { echo "/repo is dirty"; exit 2; }
+  git apply /verif/seeded/$ID/patch.diff || { echo "patch does not apply"; exit 2; }
+  trap 'git -C /repo checkout -- . ; find /repo -name __pycache__ -prune -exec rm -rf {} + 2>/dev/null' EXIT
+  REPO=/repo
+else
+  REPO=/tmp/seedrepo_$ID
+  rm -rf $REPO; rsync -a --exclude .git --exclude __pycache__ --exclude buildir /repo/ $REPO/
+  (cd $REPO && patch -s -p1 < /verif/seeded/$ID/patch.diff) || { echo "patch does not apply"; rm -rf $REPO; exit 2; }
+  trap 'rm -rf $REPO' EXIT
+fi
+VERIF_REPO=$REPO VERIF_OUT=$OUT VERIF_MAX_REPORT=2 timeout 3000 /venv/bin/python /verif/bin/verify $PID "$@" 2>&1 | grep -v simpleTAL | cut -c1-700 | tail -12
 echo "exit=${PIPESTATUS[0]}"
